@@ -186,3 +186,7 @@ func (n *Node) VSetTimerFactory(f func(time.Duration) <-chan time.Time) {
 
 // VTimerIsSet reads controlTimer.isSet.
 func (n *Node) VTimerIsSet() bool { return n.controlTimer.isSet }
+
+// VSelfSigPool exposes the pool of own block signatures waiting for the next
+// self-event (used to play a validator that gossips adversarial signatures).
+func (n *Node) VSelfSigPool() *hg.SigPool { return n.core.selfBlockSignatures }
